@@ -6,15 +6,35 @@ import ParsleyVerif.Proofs.CoreTieData
 namespace PV.CoreTie
 open PV.FactsCore
 
-theorem get_loop (W : World Context) (lrc : IntMap) (r : Result) (keys : List Int) (s : Context) :
-    ResultCache_Get_loop1 W lrc (some r) keys s =
-      .ok (if keys.all (fun key => !decide (CorePrelude.Data.IntMap_Get r.LeftRecCtx key > CorePrelude.Data.IntMap_Get lrc key))
+/-- `abstract_loop (f W) : T as L hL`: names `L` the generated loop function `f` applied to whatever it takes before its list
+    argument — the variables of the enclosing function that the loop mentions, whose number and types depend on how the
+    source is written (a temporary hoisted out of the loop adds one) — so that what is proved of the loop is proved of `L`
+    from its two equations and not of one particular parameter list -/
+syntax "abstract_loop " term:max " : " term " as " ident ident : tactic
+macro_rules
+  | `(tactic| abstract_loop $p : $t as $L $h) => `(tactic| first
+      | generalize $h:ident : ($p : $t) = $L
+      | generalize $h:ident : ($p _ : $t) = $L
+      | generalize $h:ident : ($p _ _ : $t) = $L
+      | generalize $h:ident : ($p _ _ _ : $t) = $L
+      | generalize $h:ident : ($p _ _ _ _ : $t) = $L
+      | generalize $h:ident : ($p _ _ _ _ _ : $t) = $L
+      | generalize $h:ident : ($p _ _ _ _ _ _ : $t) = $L)
+
+/-- the reuse test, for ANY function `L` on key lists that satisfies the two equations of the translated loop -/
+theorem get_loop_of (L : List Int → CM (CorePrelude.Brk (Option Result × Bool) Unit)) (lrc saved : IntMap)
+    (hnil : ∀ s, L [] s = .ok (.done ()) s)
+    (hcons : ∀ key rest s, L (key :: rest) s =
+      if CorePrelude.Data.IntMap_Get saved key > CorePrelude.Data.IntMap_Get lrc key then .ok (.ret (none, false)) s else L rest s)
+    (keys : List Int) (s : Context) :
+    L keys s =
+      .ok (if keys.all (fun key => !decide (CorePrelude.Data.IntMap_Get saved key > CorePrelude.Data.IntMap_Get lrc key))
         then .done () else .ret (none, false)) s := by
   induction keys with
-  | nil => simp [ResultCache_Get_loop1]
+  | nil => simp [hnil]
   | cons key rest ih =>
-    simp only [ResultCache_Get_loop1, bind_apply, deref_some, ite_apply, List.all_cons]
-    by_cases h : CorePrelude.Data.IntMap_Get r.LeftRecCtx key > CorePrelude.Data.IntMap_Get lrc key
+    rw [hcons]
+    by_cases h : CorePrelude.Data.IntMap_Get saved key > CorePrelude.Data.IntMap_Get lrc key
     · simp [h]
     · simp [h, ih]
 
@@ -41,14 +61,45 @@ theorem tie_Get (W : World Context) (rc : CMap (CMap (Option Result))) (cache : 
     obtain ⟨r, h1, h2⟩ := he
     simp only [lookup] at h1
     have hk := CtxRel.keysAll h2.ctx hm
+    -- the translated loop, whatever it takes before the key list, is a function `L` with the two equations of `get_loop_of`
+    have hloop : ∀ (keys : List Int) (s : Context),
+        ResultCache_Get W rc idx pos m s =
+          (match (if keys.all (fun key => !decide (CorePrelude.Data.IntMap_Get r.LeftRecCtx key > CorePrelude.Data.IntMap_Get m key))
+              then (CorePrelude.Brk.done () : CorePrelude.Brk (Option Result × Bool) Unit) else .ret (none, false)) with
+            | .ret v => .ok v s
+            | .done _ => .ok (some r, true) s) ∨ keys ≠ CorePrelude.Data.IntMap_Keys r.LeftRecCtx := by
+      intro keys s
+      by_cases hkeys : keys = CorePrelude.Data.IntMap_Keys r.LeftRecCtx
+      · left
+        subst hkeys
+        conv => lhs; simp [ResultCache_Get, CorePrelude.Go.mapGet2, CorePrelude.Go.mapGet, h1]
+        abstract_loop (ResultCache_Get_loop1 W) : List Int → CM (CorePrelude.Brk (Option Result × Bool) Unit) as L hL
+        have hnil : ∀ s, L [] s = .ok (.done ()) s := by
+          intro s; rw [← hL]; simp [ResultCache_Get_loop1]
+        have hcons : ∀ key rest s, L (key :: rest) s =
+            if CorePrelude.Data.IntMap_Get r.LeftRecCtx key > CorePrelude.Data.IntMap_Get m key then .ok (.ret (none, false)) s
+            else L rest s := by
+          intro key rest s
+          rw [← hL]
+          by_cases h : CorePrelude.Data.IntMap_Get r.LeftRecCtx key > CorePrelude.Data.IntMap_Get m key <;>
+            simp [ResultCache_Get_loop1, h]
+        rw [get_loop_of L m r.LeftRecCtx hnil hcons]
+        by_cases hA : ((CorePrelude.Data.IntMap_Keys r.LeftRecCtx).all
+            (fun key => !decide (CorePrelude.Data.IntMap_Get r.LeftRecCtx key > CorePrelude.Data.IntMap_Get m key))) = true
+        · rw [if_pos hA]; rfl
+        · rw [if_neg hA]; rfl
+      · exact .inr hkeys
+    have hrun := (hloop (CorePrelude.Data.IntMap_Keys r.LeftRecCtx) s).resolve_right (fun h => h rfl)
     by_cases hall : e.ctx.all (fun kv => !(kv.2 > ctx.get kv.1)) = true
     · simp only [hall, if_true]
       refine ⟨r, ?_, h2⟩
       rw [← hk] at hall
-      simp [ResultCache_Get, CorePrelude.Go.mapGet2, CorePrelude.Go.mapGet, h1, get_loop, hall]
+      rw [hrun]
+      simp [hall]
     · simp only [hall, Bool.false_eq_true, if_false]
       rw [← hk] at hall
-      simp [ResultCache_Get, CorePrelude.Go.mapGet2, CorePrelude.Go.mapGet, h1, get_loop, hall]
+      rw [hrun]
+      simp [hall]
 
 theorem cacheFind_save (c : List CacheEntry) (e : CacheEntry) (i p : Nat) :
     cacheFind (cacheSave c e) i p = if e.idx = i ∧ e.pos = p then some e else cacheFind c i p := by
